@@ -19,6 +19,10 @@ def handle (line : String) : String :=
     | some f, some c, some k => cmdTime f c k
     | _, _, _ => "bad-op"
   | ["recover", h] => match hexArg h with | some b => cmdRecover b | none => "bad-op"
+  | ["textout", f, d, hs] =>
+    match hexArg f, hexArg d, parseHexList hs with
+    | some f, some d, some cs => cmdTextOut f d cs
+    | _, _, _ => "bad-op"
   | ["bread", s, f, d, h] =>
     match hexArg f, hexArg d, hexArg h with
     | some f, some d, some h => cmdBread (s == "1") f d h
